@@ -37,6 +37,8 @@ def run_property(pid, tier, repo, evidence_dir, replay_keys=None, quiet=False):
     try:
         model = Model(repo)
         REGISTRY[pid](model, report, tier)
+        from .rules.sharing import apply_sharing
+        apply_sharing(model, report, pid)
         if not report.obligations:
             raise AnalysisError("no obligation was evaluated")
     except AnalysisError as e:
